@@ -683,7 +683,7 @@ def ob_cost_estimate(ctx, k, closed, bits, rate_vectors=None):
                 break
             if not no_panic(ctx, res, env, st, extra, what=name):
                 break
-            seen = seen or witness(ctx, res, env, st, est > 0, extra)
+            seen = seen or witness(ctx, res, env, st, z3.BoolVal(True), extra)
         if res.status != 'holds':
             break
         res.witnesses += int(seen)
